@@ -105,12 +105,43 @@ Lemma stringify_agree v :
   value_as_string formatter custom_as_string v = value_into_string formatter custom_as_string v.
 Proof. split; reflexivity. Qed.
 
-(* format_pattern = write_pattern, unless the formatter rewrites String values (finding D22:
-   format_pattern ends with `value.into_string(&scope)`, which runs the formatter on the result) *)
-Definition formatter_keeps_strings : Prop := forall s, apply_formatter formatter (VString s) = None.
+(* bundle.rs format_pattern: `match pattern.resolve(..) { String(text) => text, value => value.into_string(..) }` *)
+Definition finish_format (value : fvalue) : bytes :=
+  match value with VString text => text | _ => value_into_string formatter custom_as_string value end.
 
-Lemma into_string_string s : formatter_keeps_strings -> value_into_string formatter custom_as_string (VString s) = s.
-Proof. intros H. unfold value_into_string. now rewrite H. Qed.
+(* format_pattern = write_pattern.  Pattern::resolve always returns a String, and since the fix of
+   D22 format_pattern hands that text back as it is (before, it ran `into_string`, i.e. the value
+   formatter, on the whole result: a formatter that handles String values made the two differ). *)
+Theorem format_eq_write_all args fuel p c :
+  format args (S fuel) p c =
+  match write args (S fuel) p c with
+  | Done (o, sc) => Done (flatten o, sc)
+  | Panic t => Panic t
+  | OutOfFuel => OutOfFuel
+  end.
+Proof.
+  unfold format_pattern, write_pattern. fold finish_format. rewrite pr_S.
+  assert (Hgen :
+    (let* (value, sc) :=
+       (let* (o, sc) := pattern_write overflow_checks call_function transform formatter rules custom_as_string
+                          unescape_write unescape_to_string f64_from_str b args (S fuel) p (scope_new c) in
+        Done (VString (flatten o), sc)) in
+     Done (finish_format value, sc)) =
+    match pattern_write overflow_checks call_function transform formatter rules custom_as_string
+            unescape_write unescape_to_string f64_from_str b args (S fuel) p (scope_new c) with
+    | Done (o, sc) => Done (flatten o, sc)
+    | Panic t => Panic t
+    | OutOfFuel => OutOfFuel
+    end).
+  { destruct (pattern_write _ _ _ _ _ _ _ _ _ _ _ (S fuel) p (scope_new c)) as [[o sc]|t|]; reflexivity. }
+  destruct p as [els]. cbn [pattern_elements].
+  destruct els as [|[v|e] [|x r]]; try exact Hgen.
+  rewrite pw_S. cbn. rewrite app_nil_r. reflexivity.
+Qed.
+
+(* kept for files written against the statement that predates the fix of D22: the hypothesis is no
+   longer needed *)
+Definition formatter_keeps_strings : Prop := forall s, apply_formatter formatter (VString s) = None.
 
 Theorem format_eq_write args fuel p c :
   formatter_keeps_strings ->
@@ -120,26 +151,7 @@ Theorem format_eq_write args fuel p c :
   | Panic t => Panic t
   | OutOfFuel => OutOfFuel
   end.
-Proof.
-  intros Hf. unfold format_pattern, write_pattern. rewrite pr_S.
-  assert (Hgen :
-    (let* (value, sc) :=
-       (let* (o, sc) := pattern_write overflow_checks call_function transform formatter rules custom_as_string
-                          unescape_write unescape_to_string f64_from_str b args (S fuel) p (scope_new c) in
-        Done (VString (flatten o), sc)) in
-     Done (value_into_string formatter custom_as_string value, sc)) =
-    match pattern_write overflow_checks call_function transform formatter rules custom_as_string
-            unescape_write unescape_to_string f64_from_str b args (S fuel) p (scope_new c) with
-    | Done (o, sc) => Done (flatten o, sc)
-    | Panic t => Panic t
-    | OutOfFuel => OutOfFuel
-    end).
-  { destruct (pattern_write _ _ _ _ _ _ _ _ _ _ _ (S fuel) p (scope_new c)) as [[o sc]|t|]; cbn; [|reflexivity|reflexivity].
-    now rewrite into_string_string. }
-  destruct p as [els]. cbn [pattern_elements].
-  destruct els as [|[v|e] [|x r]]; try exact Hgen.
-  rewrite pw_S. cbn. rewrite into_string_string by exact Hf. rewrite app_nil_r. reflexivity.
-Qed.
+Proof. intros _. apply format_eq_write_all. Qed.
 
 (* ---------- the memoizer ---------- *)
 Definition observe (r : result) : outcome (list otoken * scope) := omap (fun x => (fst x, erase (snd x))) r.
@@ -175,7 +187,7 @@ Theorem format_cache_indep args fuel p c1 c2 :
   cache_ok rules (cache_after c1 (format args fuel p c1)) /\
   cache_ok rules (cache_after c2 (format args fuel p c2)).
 Proof.
-  intros H1 H2. unfold format_pattern. rewrite !pr_S.
+  intros H1 H2. unfold format_pattern. fold finish_format. rewrite !pr_S.
   destruct p as [els]. cbn [pattern_elements].
   assert (Hgen :
     let r c := (let* (value, sc) :=
@@ -183,7 +195,7 @@ Proof.
                                      custom_as_string unescape_write unescape_to_string f64_from_str b args fuel
                                      (Pattern els) (scope_new c) in
                    Done (VString (flatten o), sc)) in
-                Done (value_into_string formatter custom_as_string value, sc)) in
+                Done (finish_format value, sc)) in
     observe_f (r c1) = observe_f (r c2) /\ cache_ok rules (cache_after c1 (r c1)) /\ cache_ok rules (cache_after c2 (r c2))).
   { cbv zeta. pose proof (write_cache_indep args fuel (Pattern els) c1 c2 H1 H2) as (E & K1 & K2).
     unfold write_pattern in *.
